@@ -13,8 +13,11 @@ FIELDS = {
     "code": ["code", "abc", "", "", "Pattern", "a*"],
     "tag": ["tag", "ab", "", "2", "RegEx", "[a-z]+"],
     "const": ["const", "K", "", "1", "Constant", '"K"'],
+    # cell contents rich in characters that are item delimiters elsewhere (bars, semicolons, tabs): they are cell contents here
+    "country": ["country", "DE", "", "2", "RegEx", "^(AT|BE|BG|CY|CZ|DE|DK|EE|ES|FI|FR|GR|HR|HU)$"],
+    "codes": ["codes", "a;b", "X", "", "Choice", '"a;b", "c;d;e", "f|g|h", "i\tj", ";;;;", "||||"'],
 }
-FIXED_LENGTH = {"id": "5", "name": "10", "kind": "1", "born": "10", "amount": "5", "code": "3", "tag": "2", "const": "1"}
+FIXED_LENGTH = {"id": "5", "name": "10", "kind": "1", "born": "10", "amount": "5", "code": "3", "tag": "2", "const": "1", "country": "2", "codes": "5"}
 PROPERTIES = {
     "delimited": [["Header", "1"], ["Encoding", "utf-8"], ["Item delimiter", ";"], ["Line delimiter", "LF"], ["Quote character", "'"], ["Decimal separator", ","], ["Thousands separator", "."]],
     "fixed": [["Header", "1"], ["Encoding", "utf-8"], ["Line delimiter", "LF"], ["Decimal separator", ","]],
@@ -63,7 +66,7 @@ def base_cids(count):
     """A deterministic, diverse list of valid base CIDs."""
     result = []
     names = list(FIELDS)
-    field_sets = [names[:n] for n in range(1, 7)] + [names[2:5], names[3:8], ["kind", "id"], ["name", "id", "born"], names[::2], names[1::2], list(reversed(names[:6]))]
+    field_sets = [names[:n] for n in range(1, 7)] + [["country"], ["codes"], ["codes", "country"]] + [names[2:5], names[3:8], ["kind", "id"], ["name", "id", "born"], names[::2], names[1::2], list(reversed(names[:6]))]
     index = 0
     for fields in itertools.cycle(field_sets):
         for fmt in ("delimited", "fixed", "excel", "ods"):
@@ -199,6 +202,8 @@ def defects(base):
             "RegEx": [("regex-unbalanced", "(a")],
         }
         for name, value in rule_defects.get(field_type, []):
+            if name == "choice-without-choices-not-empty" and row[3].strip().upper() == "X":
+                continue  # a Choice that may be empty needs no choices
             yield name, replaced(position, with_cell(6, value)), position + 1
         if field_type == "Constant":
             yield "constant-marked-empty-with-rule", replaced(position, with_cell(3, "X")), position + 1
@@ -218,11 +223,15 @@ def defects(base):
             if row[2] == "IsUnique":
                 first = row[3].split(",")[0].strip()
                 for name, rule in (("isunique-unknown-field", "nope"), ("isunique-duplicate-field", "%s, %s" % (first, first)), ("isunique-missing-comma", "%s %s" % (first, first)),
-                                   ("isunique-leading-comma", ", " + first), ("isunique-double-comma", "%s,, %s" % (first, first)), ("isunique-empty-rule", "")):
+                                   ("isunique-leading-comma", ", " + first), ("isunique-double-comma", "%s,, %s" % (first, first)), ("isunique-empty-rule", ""),
+                                   # rules the tokenizer itself cannot split: stray quote, unbalanced bracket, dangling backslash
+                                   ("isunique-stray-quote", "%s, '%s" % (first, first)), ("isunique-open-bracket", "(%s" % first), ("isunique-dangling-backslash", first + "\\"),
+                                   ("isunique-number-as-field", "%s, 3" % first), ("isunique-string-as-field", '"%s"' % first)):
                     yield name, replaced(position, row[:3] + [rule]), position + 1
             else:
                 for name, rule in (("distinctcount-unknown-field", "nope < 3"), ("distinctcount-non-boolean", "kind + 3"), ("distinctcount-broken-expression", "kind < "),
-                                   ("distinctcount-not-starting-with-field", "3 > kind"), ("distinctcount-empty-rule", "")):
+                                   ("distinctcount-not-starting-with-field", "3 > kind"), ("distinctcount-empty-rule", ""),
+                                   ("distinctcount-stray-quote", "kind < 10'"), ("distinctcount-open-bracket", "kind < (2 * 5"), ("distinctcount-dangling-backslash", "kind < 3\\")):
                     yield name, replaced(position, row[:3] + [rule]), position + 1
     for position in range(len(rows)):
         if rows[position] and rows[position][0].strip():
